@@ -168,6 +168,18 @@ def run(ctx):
         hs, _ = bc.emit_histories(which, n)
         meta[f"histories_{which}_upto_{n}"] = len(hs)
         specs += bc.specs_from(which, hs)
+    # the complete automata (histories of any length): every reachable automaton state by a shortest history, and
+    # every transition of the automaton (quick: all of LayerRule / DiagramRule, a seeded sample of Rule's)
+    closures = []
+    for which in ("rule", "lrule", "diag"):
+        cstates, ctrans, cr = bc.closure(which)
+        closures.append(cr)
+        meta[f"automaton_states_{which}"] = len(cstates)
+        meta[f"automaton_transitions_{which}"] = len(ctrans)
+        if ctx.quick and len(ctrans) > 6000:
+            ctrans = rng.sample(ctrans, 4000)
+        meta[f"automaton_transitions_{which}_replayed"] = len(ctrans)
+        specs += bc.specs_from(which, cstates + ctrans)
     # longer behaviours of the automata (tlc -simulate)
     for which, depth, num in (("rule", 7, 150 if ctx.quick else 3000), ("lrule", 7, 1000 if ctx.quick else 12000)):
         hs, _ = bc.simulate_histories(which, depth, num, seed=ctx.seed + 1)
@@ -271,9 +283,11 @@ def run(ctx):
     verdicts = sum(1 for ep in episodes for e in ep if e["k"] == "assert" and e["out"] != "error")
     if not must_error or not verdicts:
         raise tlc.MachineryError("vacuous: no erroring or no evaluating history")
-    states = sum(m.distinct for m in mcs)
+    states = sum(m.distinct for m in mcs) + sum(c.distinct for c in closures)
     cov = {"states": states + tr.states + utr.states + etr.states,
-           "transitions": sum(m.generated for m in mcs) + tr.transitions + utr.transitions + etr.transitions,
+           "transitions": sum(m.generated for m in mcs + closures) + tr.transitions + utr.transitions + etr.transitions,
+           "automaton_closure": "TLC with VIEW = automaton state: every reachable state of the Rule / LayerRule / "
+                                "DiagramRule automata; the model-level invariants hold for histories of any length",
            "model_states": states, "traces_validated_against_impl": len(episodes) + len(uepisodes) + 1,
            "trace_events": tr.events + utr.events + etr.events,
            "histories_replayed": len(specs), "asserts_raising_error": must_error, "asserts_with_verdict": verdicts,
@@ -284,7 +298,9 @@ def run(ctx):
            "rule": "one case = one call history replayed on a fresh real object and closed with assert_applies on "
                    "4 architectures; distinct = distinct histories",
            "exhaustive": False,
-           "exhaustive_part": f"all call histories up to length {n_rule} (Rule), {n_lrule} (LayerRule), {n_diag} (DiagramRule)",
+           "exhaustive_part": f"all call histories up to length {n_rule} (Rule), {n_lrule} (LayerRule), {n_diag} (DiagramRule); "
+                              "every state of the three automata by a shortest history"
+                              + ("" if ctx.quick else " and every transition of them"),
            "samples": [episodes[len(episodes) // 2][:8]], **meta}
     return CheckResult(fails=fails + ufails + efails, coverage=cov, assumptions=ASSUMPTIONS)
 
